@@ -391,7 +391,15 @@ fn handle_established(
             // as it was, and applying its window to the newer `snd_una`
             // lets us send past the peer's current right edge — or
             // closes a window the peer has reopened since.
-            if (s.ack.wrapping_sub(tcb.snd_una) as i32) >= 0 {
+            if acked == 0 {
+                // Same ack number as the one our window belongs to. At a
+                // fixed ack number the peer's right edge only ever grows
+                // (its application reads), so of two such advertisements
+                // the smaller window is the older one: a zero-window ACK
+                // that was overtaken by the window update reopening it
+                // must not close the window again, for good.
+                tcb.snd_wnd = tcb.snd_wnd.max(s.window);
+            } else if (s.ack.wrapping_sub(tcb.snd_una) as i32) >= 0 {
                 tcb.snd_wnd = s.window;
             }
             wake_write = true;
